@@ -103,6 +103,18 @@ CLAIMS["C31"] = (
     "atomic (they take no lock); 'sessions observe one generation' is concurrency and is not decided.",
     "DESIGN.md section 4, C31")
 
+CLAIMS["C07"] = (
+    "Frame half of the property as a type-level frame condition: outside the listed constructors, no function of proxy/router, proxy/plan "
+    "and proxy/server stores to a field of the router, rule or shard types, to a map or slice reachable from such a field (including values "
+    "handed out by their getters and by the router.Rule / router.Shard interfaces), or lets the address of such a field escape into a call. "
+    "Every store / map update / delete / copy site of those packages (about two thousand) is one obligation, decided by the frame checker "
+    "on the SSA on every run.",
+    "The frame checker is syntactic (no points-to analysis): a pointer to a routing object stored in an unrelated structure and written "
+    "through it would not be seen; SetWeightMapFromFile is treated as a construction-time setter (no caller in the repository). That "
+    "planning then yields the same plans as planning alone follows from 'plan construction reads only its arguments and immutable "
+    "router state' (meta-argument, not mechanised; rand in global-table reads excepted). The schedule quantifier itself is not explored.",
+    "DESIGN.md section 4, C07")
+
 NA = {
 }
 
